@@ -191,6 +191,23 @@ class HistoryRunner:
                 disk.touch(p)
                 m.user_touch(p)
                 self.pending_changes.add("touch")
+        elif k == "rmgendir":
+            d = op[1]
+            inside = [p for p in m.fs if p.startswith(d + "/")]
+            if d not in m.missing_dirs and all(m.fs[p].owner == "redo" for p in inside):
+                shutil.rmtree(disk.abspath(d), ignore_errors=True)
+                for p in inside:
+                    m.user_remove(p)
+                m.missing_dirs.add(d)
+                self.pending_changes.add("rmtarget")
+                self.out.events["gendir:directory-of-generated-files-removed"] += 1
+        elif k == "mkgendir":
+            d = op[1]
+            if d in m.missing_dirs:
+                os.makedirs(disk.abspath(d), exist_ok=True)
+                m.missing_dirs.discard(d)
+                self.pending_changes.add("mkgendir")
+                self.out.events["gendir:directory-created-again"] += 1
         elif k == "rmtarget":
             p = op[1]
             if p in m.fs and m.fs[p].owner == "redo":
@@ -366,6 +383,8 @@ class HistoryRunner:
         m, disk = self.m, self.disk
         if not os.path.isdir(os.path.join(disk.root, ".redo")):
             cwd = ""   # the first command decides where .redo lives
+        if cwd and cwd in getattr(m, "missing_dirs", ()):
+            cwd = ""   # nobody can stand in a directory that was removed
         if kind == "redo" and len(targets) > 1:
             # `redo X Y` with Y in X's closure is statement-silent (DESIGN §5): keep only independent targets
             keep = []
